@@ -371,6 +371,9 @@ class SymNum(Sym):
 
     def __rmul__(s, o):
         if isinstance(o, str):
+            c = Ctx.cur
+            if c is not None and getattr(c, "str_mul_fork", None) is not None:
+                return o * fork_int(s, 0, c.str_mul_fork)  # a real str: the repeat count is decided by solver forks on this path
             return SegStr([(o, s)])
         if s._isinf(o):
             return s._signed_inf(o)
